@@ -68,6 +68,17 @@ int main() {
                 if (g_faults) out = "fault";
                 else out = "ret=" + std::to_string(r) + " digest=" + std::to_string(h);
             }
+        } else if (w.size() == 3 && w[0] == "lz4reffile") {
+            // the reference decoder on a big input from a binary file
+            FILE *f = fopen(w[1].c_str(), "rb");
+            if (f) {
+                fseek(f, 0, SEEK_END); long n = ftell(f); fseek(f, 0, SEEK_SET);
+                std::vector<uint8_t> v(n); if (n && fread(v.data(), 1, n, f) != (size_t)n) n = 0; fclose(f);
+                size_t osz = strtoul(w[2].c_str(), 0, 10);
+                Exact in(v); Exact o(osz, 0);
+                int r = LZ4_decompress_safe((const char *)in.p, (char *)o.p, (int)in.n, (int)o.n);
+                out = r < 0 ? "ref=-1" : "ref=" + std::to_string(r);
+            }
         } else if (w.size() == 3 && w[0] == "lz4ref" && parse_hex(w[1], b)) {
             size_t osz = strtoul(w[2].c_str(), 0, 10);
             Exact in(b); Exact o(osz, 0);
